@@ -64,12 +64,7 @@ Definition spec_can (sp : proto_spec) (proto : string) (sender : agency) (s m : 
 (* (protocol, role, implementation state, message class, kind) — the harness's ORACLE_FAIL keys
    `<protocol>/<role>/<state>/<message>/<kind>`; kinds: send, recv (acceptance tables),
    next (state after an accepted exchange), method (no operation performs a permitted transition) *)
-Definition known23 : list (string * string * string * string * string) :=
-  [ ("handshake", "server", "Confirm", "QueryReply", "send");
-    ("handshake", "server", "Confirm", "QueryReply", "method");
-    ("handshake", "client", "Confirm", "QueryReply", "next");
-    ("txmonitor", "client", "Acquired", "Release", "send");
-    ("txmonitor", "client", "Acquired", "Release", "method") ].
+Definition known23 : list (string * string * string * string * string) := [].
 
 Definition key_eqb (a b : string * string * string * string * string) : bool :=
   let '(p1, r1, s1, m1, k1) := a in let '(p2, r2, s2, m2, k2) := b in
